@@ -45,6 +45,11 @@ class LineRun:
             return {"what": "two write transactions open at the same time", "threads": body}
         if r.admission != r.arrival[: len(r.admission)]:
             return {"what": "writers admitted out of arrival order", "arrival": list(r.arrival), "admission": list(r.admission)}
+        z = r.z
+        for txn in list(z._readers):
+            if not any(txn.version is v for v in z._versions):
+                return {"what": "version pinned by an open reader was pruned", "vid": txn.version.id,
+                        "retained": [v.id for v in z._versions]}
         if not r.all_done() and not r.enabled_tids():
             return {"what": "deadlock: unfinished threads and no step enabled",
                     "gates": [repr(w.gate[2:]) for w in ws if not w.done]}
@@ -180,7 +185,7 @@ def check(ctx):
     if not ctx.quick:
         configs += [([W1, W2, WR], 0), ([W2, W1, P, R], 1)]
     k = 1 if ctx.quick else 2
-    cap = ctx.n(250, 2000)
+    cap = ctx.n(250, 800)
     scopes = []
     for progs, kind in configs:
         res, seen = bounded_preemption_schedules(progs, kind, k, cap, ctx.rng)
@@ -193,7 +198,7 @@ def check(ctx):
                 break
     rng = ctx.rng
     import pC12
-    for i in range(ctx.n(150, 1500)):
+    for i in range(ctx.n(150, 800)):
         progs = pC12.gen_progs(rng, rng.choice([2, 3, 3, 4, 5]))
         stick = rng.choice([0.0, 0.5, 0.8, 0.95])
 
